@@ -10,8 +10,9 @@
 //	RF                           operations on a given file image
 //	   ops: file <hex> | rs <reads> | vs <chunks> | fo <bit> <n> | fv <bit> <chunks>
 //	        | to <len> <n> | tv <len> <chunks> | sh | sk
-//	CZ <comp> <bs-multiple-flag> compressor chain at the snapshotter level, monitor only
+//	CZ <comp>                    compressor chain at the snapshotter level, monitor only
 //	   ops: w <hex>
+//	BG <seed> <len> <segsizes>   real 2 MB block size, multi-megabyte payload, monitor only
 package main
 
 import (
@@ -287,6 +288,52 @@ func headerPadStart(f []byte) int {
 	return int(12 + sz)
 }
 
+// ---------------------------------------------------------------- caller buffers
+
+// backing lays all write segments of a case out in ONE array (followed by a few spare
+// bytes) and keeps an immutable reference copy. Every Write gets the sub-slice of its
+// segment, so cap > len and the bytes after it are the next payload bytes - what a state
+// machine writing pieces of one large buffer does. unchanged() is the io.Writer contract
+// "Write must not modify the slice data, even temporarily".
+type backing struct {
+	buf, ref []byte
+	off      int
+}
+
+func newBacking(ops []string) *backing {
+	b := &backing{}
+	for _, op := range ops {
+		f := strings.Fields(op)
+		if len(f) == 2 && f[0] == "w" {
+			b.buf = append(b.buf, vh.UnHex(f[1])...)
+		}
+	}
+	for i := 0; i < 16; i++ {
+		b.buf = append(b.buf, byte(0xA5+i))
+	}
+	b.buf = append(make([]byte, 0, len(b.buf)+32), b.buf...)
+	b.ref = append([]byte{}, b.buf...)
+	return b
+}
+
+// next returns the caller's slice for a segment of n bytes and its reference copy
+func (b *backing) next(n int) (seg []byte, ref []byte) {
+	seg, ref = b.buf[b.off:b.off+n], b.ref[b.off:b.off+n]
+	b.off += n
+	return
+}
+
+func (b *backing) unchanged() bool { return bytes.Equal(b.buf, b.ref) }
+
+func (b *backing) firstDiff() int {
+	for i := range b.ref {
+		if b.buf[i] != b.ref[i] {
+			return i
+		}
+	}
+	return -1
+}
+
 // ---------------------------------------------------------------- BW
 
 type sliceReader struct{ r *bytes.Reader }
@@ -297,11 +344,14 @@ func runBW(id string, bs int, ops []string, st *vh.Stats) string {
 	var out []byte
 	var cur []byte
 	have := false
+	// the callback is the one newV2Writer installs: fw.Write(append(data, crc...))
+	var fw bytes.Buffer
 	bw := c14.NewBlockWriter(uint64(bs), func(data []byte, crc []byte) error {
-		out = append(out, data...)
-		out = append(out, crc...)
-		return nil
+		_, err := fw.Write(append(data, crc...))
+		out = fw.Bytes()
+		return err
 	}, pb.CRC32IEEE)
+	back := newBacking(ops)
 	var rd io.Reader
 	mk := func() {
 		n := len(cur) - 16
@@ -322,12 +372,19 @@ func runBW(id string, bs int, ops []string, st *vh.Stats) string {
 		}
 		switch f[0] {
 		case "w":
-			d := vh.UnHex(f[1])
+			d, dref := back.next(len(vh.UnHex(f[1])))
 			if p := vh.Catch(func() { _, err := bw.Write(d); must(err) }); p != "" {
 				toks = append(toks, "wP")
 			} else {
 				toks = append(toks, "w")
-				payload = append(payload, d...)
+				payload = append(payload, dref...) // immutable reference, not the caller's slice
+			}
+			if !back.unchanged() {
+				st.Violation(id, fmt.Sprintf("writer-clobbers-caller: Write(%d bytes, block size %d) modified the caller's buffer at offset %d", len(d), bs, back.firstDiff()))
+				copy(back.buf, back.ref)
+			}
+			if len(d) >= bs+4 {
+				st.Count("bw-write-ge-block")
 			}
 			st.Count("bw-write")
 		case "c":
@@ -417,7 +474,27 @@ func runBW(id string, bs int, ops []string, st *vh.Stats) string {
 
 // ---------------------------------------------------------------- SW
 
-func writeSnapshot(fs c14.IFS, ver int, comp int, segs [][]byte) (w *c14.SnapshotWriter, total int, err error) {
+// lastClobber: offset at which the last writeSnapshot found the caller's buffer modified
+var lastClobber = -1
+
+func writeSnapshot(fs c14.IFS, ver int, comp int, segsIn [][]byte) (w *c14.SnapshotWriter, total int, err error) {
+	// segments as sub-slices of one backing array (cap > len), checked afterwards
+	var ops []string
+	for _, s := range segsIn {
+		ops = append(ops, "w "+vh.Hex(s))
+	}
+	back := newBacking(ops)
+	var segs [][]byte
+	for _, s := range segsIn {
+		seg, _ := back.next(len(s))
+		segs = append(segs, seg)
+	}
+	lastClobber = -1
+	defer func() {
+		if !back.unchanged() {
+			lastClobber = back.firstDiff()
+		}
+	}()
 	if ver == 2 {
 		w, err = c14.NewSnapshotWriter(fp, pb.CompressionType(comp), fs)
 	} else {
@@ -452,6 +529,9 @@ func runSW(id string, ver, comp int, reads, sizes []int, ops []string, st *vh.St
 	var err error
 	if p := vh.Catch(func() { w, total, err = writeSnapshot(fs, ver, comp, segs) }); p != "" || err != nil {
 		return fmt.Sprintf("%s SW P", id)
+	}
+	if lastClobber >= 0 {
+		st.Violation(id, fmt.Sprintf("writer-clobbers-caller: SnapshotWriter.Write modified the caller's buffer at offset %d", lastClobber))
 	}
 	f := getFile(fs, fp)
 	pcrc := w.GetPayloadChecksum()
@@ -729,6 +809,114 @@ func runCZ(id string, comp int, ops []string, seed uint64, st *vh.Stats) string 
 	return fmt.Sprintf("%s CZ", id)
 }
 
+// ---------------------------------------------------------------- BG (monitor only)
+
+// runBG: the real v2 SnapshotWriter at the real 2 MB block size with multi-megabyte
+// payloads written as sub-slices of one buffer (segment sizes from the case), read back
+// with the real reader, validated as a chunk stream; a few bit flips and cuts.
+// The payload is derived from the seed in the case (too large for the model's CRC).
+func runBG(id string, pseed uint64, n int, segSizes []int, st *vh.Stats) string {
+	r := vh.NewRand(pseed)
+	buf := make([]byte, n+64, n+4096)
+	for i := 0; i+8 <= len(buf); i += 8 {
+		binary.LittleEndian.PutUint64(buf[i:], r.U64())
+	}
+	ref := append([]byte{}, buf...)
+	fs := newFS()
+	w, err := c14.NewSnapshotWriter(fp, pb.NoCompression, fs)
+	must(err)
+	off := 0
+	for i := 0; off < n; i++ {
+		k := n - off
+		if i < len(segSizes) && segSizes[i] < k {
+			k = segSizes[i]
+		}
+		_, err := w.Write(buf[off : off+k])
+		must(err)
+		if !bytes.Equal(buf, ref) {
+			d := 0
+			for d < len(ref) && buf[d] == ref[d] {
+				d++
+			}
+			st.Violation(id, fmt.Sprintf("writer-clobbers-caller: SnapshotWriter.Write(buf[%d:%d]) modified the caller's buffer at offset %d", off, off+k, d))
+			copy(buf, ref)
+		}
+		off += k
+	}
+	must(w.Close())
+	payload := ref[:n]
+	f := getFile(fs, fp)
+	if w.GetPayloadSize(uint64(n))+1024 != uint64(len(f)) {
+		st.Violation(id, fmt.Sprintf("size: recorded size %d+1024 but the file has %d bytes", w.GetPayloadSize(uint64(n)), len(f)))
+	}
+	if sum, err := c14.GetV2PayloadChecksum(fp, fs); err != nil || !bytes.Equal(sum, w.GetPayloadChecksum()) {
+		st.Violation(id, fmt.Sprintf("checksum: recorded %s, file gives %s (%v)", vh.Hex(w.GetPayloadChecksum()), vh.Hex(sum), err))
+	}
+	readAll := func(img []byte, sizes []int) (data []byte, failed bool) {
+		lfs := newFS()
+		putFile(lfs, fp, img)
+		if p := vh.Catch(func() {
+			rd, _, err := c14.NewSnapshotReader(fp, lfs)
+			if err != nil {
+				failed = true
+				return
+			}
+			for i := 0; ; i++ {
+				k := 1 << 20
+				if i < len(sizes) && sizes[i] > 0 {
+					k = sizes[i]
+				}
+				b := make([]byte, k)
+				m, err := rd.Read(b)
+				data = append(data, b[:m]...)
+				if err != nil {
+					break
+				}
+			}
+			if err := rd.Close(); err != nil {
+				failed = true
+			}
+		}); p != "" {
+			failed = true
+		}
+		return
+	}
+	got, failed := readAll(f, segSizes)
+	if failed || !bytes.Equal(got, payload) {
+		d := 0
+		for d < len(got) && d < len(payload) && got[d] == payload[d] {
+			d++
+		}
+		st.Violation(id, fmt.Sprintf("roundtrip: %d bytes written with segments %v, read back %d bytes (failed=%v), first difference at offset %d", n, segSizes, len(got), failed, d))
+	}
+	ch := []int{1024 + r.Intn(3000)}
+	for i := 0; i < 6; i++ {
+		ch = append(ch, 1+r.Intn(2<<20))
+	}
+	if v := verdict(f, ch); v != "A" {
+		st.Violation(id, fmt.Sprintf("validator: writer output refused (%s), %d bytes", v, len(f)))
+	}
+	for i := 0; i < 6; i++ {
+		b := 8*1024 + r.Intn(8*(len(f)-1024))
+		g := flip(f, b)
+		if v := verdict(g, ch); v == "A" {
+			st.Violation(id, fmt.Sprintf("validator: stream with bit %d flipped accepted (%d bytes)", b, len(f)))
+		}
+		if i < 2 {
+			d, failed := readAll(g, nil)
+			if !failed && !bytes.Equal(d, payload) || !bytes.HasPrefix(payload, d) {
+				st.Violation(id, fmt.Sprintf("corruption: bit %d flipped, reader handed out different bytes (%d bytes file)", b, len(f)))
+			}
+		}
+		l := 1024 + r.Intn(len(f)-1024)
+		if v := verdict(f[:l], ch); v == "A" {
+			st.Violation(id, fmt.Sprintf("validator: stream cut to %d of %d bytes accepted", l, len(f)))
+		}
+	}
+	st.Count("bg-real-block-size")
+	return fmt.Sprintf("%s BG", id)
+}
+
 // ---------------------------------------------------------------- main
 
 func splitCase(line string) (id string, head []string, ops []string) {
@@ -779,6 +967,10 @@ func main() {
 			case "CZ":
 				comp, _ := strconv.Atoi(head[1])
 				obs = runCZ(id, comp, ops, a.Seed, st)
+			case "BG":
+				ps, _ := strconv.ParseUint(head[1], 10, 64)
+				n, _ := strconv.Atoi(head[2])
+				obs = runBG(id, ps, n, ints(head[3]), st)
 			default:
 				obs = id + " ? unparsed"
 			}
